@@ -88,8 +88,34 @@ claim("C25", "proof",
       "Lean 4 proof (round trip for all sequences) + byte-exact differential correspondence with the real coder",
       "lean-correspondence")
 
+claim("C13", "proof",
+      "svt_svt_enc_init_parameter is re-translated from EbEncHandle.c on every run; members it does not assign keep the caller's value in the model, and the member "
+      "list comes from the struct declaration. defaults_total proves the returned configuration is the same for every prior content of the caller's memory; "
+      "every_member_assigned covers every member; defaults_accepted / accepted_whatever_the_prior_memory prove that the defaults plus any even size in 64..4096 x "
+      "64..2160 are accepted with in-bounds copies; defaults_match_doc / doc_default_deviations tie 80 documented defaults to the code (6 deviations are recorded "
+      "findings). Each run validates the tie: the REAL svt_av1_enc_init_handle on 0x00/0xFF/0x5A/0x01/random/left-over caller memory is dumped member by member "
+      "and compared across fills and with the model; the real set_parameter is called on size grids; real 3-frame encodes are compared byte-wise across fills.",
+      AX + "; xlate/config.py translator (validated against the real API each run); pred_struct contents opaque in the model (real bytes compared); documented "
+      "defaults are a human transcription re-checked against the guide each run; struct padding is never read by the library (checked on the dump); e2e "
+      "independence of prior memory is sampled, not proved.",
+      "Lean 4 proof over a model regenerated from C source (translator) + real-API / real-encode replay",
+      "lean-translator")
+
+claim("C18", "proof",
+      "The tail of rate_control_kernel (every branch that assigns base_q_idx / picture_qp) and the recode clamp are modelled with every upstream value "
+      "universally quantified: baseQIdx_in_bounds / pictureQp_in_bounds / recode_in_bounds hold for all inputs with 0 <= min <= max <= 63; api_baseQIdx_in_bounds "
+      "extends this to every configuration the generated set_parameter model accepts, over the EFFECTIVE bounds (1/63 in CQP, via effCfg_is_copyApi); "
+      "fixed_offsets_spec / fixed_zero_offsets_exact / cqp_exact / on_the_fly_spec / min_eq_max_pins give exact values; pictureQp_consistent ties the packet qp to "
+      "the header; q2q_strict_mono over the regenerated quantizer_to_qindex table. Tie: the verbatim tail and recode function (text-extracted from the current "
+      "source) run on grids and random tuples against the model (all 8 branches), the assignment sites of base_q_idx are scanned, and real 1-pass, 2-pass and "
+      "qp-file encodes have every frame header parsed by the Lean OBU parser: base_q_idx within the effective bounds and equal to the exact value where one is proved.",
+      AX + "; Model/QpTail.lean is a transcription tied by correspondence; upstream rate-control functions are arbitrary inputs at unit level and real in the "
+      "encodes; per-SB delta-q not covered; one recorded finding (enable_qp_scaling_flag ignored).",
+      "Lean 4 proof over a hand-written model + generated copy_api/verify model + differential correspondence with extracted real code + header-level oracle on real encodes",
+      "lean-correspondence")
+
 _PENDING = ("check under construction (model planned in DESIGN.md section 5); not claimed until its theorem and correspondence run exist "
             "and pass on the unchanged tree")
-for _p in ["C01", "C03", "C04", "C05", "C06", "C07", "C08", "C09", "C10", "C11", "C13", "C14", "C15", "C16", "C17", "C18", "C19", "C20",
+for _p in ["C01", "C03", "C04", "C05", "C06", "C07", "C08", "C09", "C10", "C11", "C14", "C15", "C16", "C17", "C19", "C20",
            "C21", "C26", "C27"]:
     NOT_CLAIMED[_p] = _PENDING
